@@ -362,17 +362,20 @@ Definition wf_recv (c : pcfg) : Prop :=
   total_hook h_pre_exec (c_stack c) /\ total_hook h_on_error (c_stack c) /\ total_hook h_post_exec (c_stack c).
 
 (* ------------------------------------------------------------------------------------------ statements *)
-(* the point selected by the acknowledge type has been reached after the events `seen` *)
-Definition reached (a : acktype) (seen : list eff) : Prop :=
-  match a with
+(* the point selected by the acknowledge type has been reached after the events `seen`:
+   when_received - the function body has not started; when_executed - the try block around the function is over
+   (it returned, raised or timed out) and, for a coroutine function, a started body has been left;
+   when_saved - set_result returned or raised, or was skipped for a no-result outcome *)
+Definition reached (c : pcfg) (seen : list eff) : Prop :=
+  match c_ack c with
   | AckReceived => ~ In FTaskStart seen
-  | AckExecuted => In FExecEnd seen /\ (In FTaskStart seen -> exists b, In (FTaskEnd b) seen)
+  | AckExecuted => In FExecEnd seen /\ (c_async c = true -> In FTaskStart seen -> exists b, In (FTaskEnd b) seen)
   | AckSaved => In FSaveOk seen \/ In FSaveErr seen \/ In FSaveSkip seen
   end.
 
 (* every ack of the run l sits after the configured point; for when_received the body does not start un-acked *)
 Definition ack_not_before (c : pcfg) (l : list eff) : Prop :=
-  (forall p1 p2, l = p1 ++ FAck :: p2 -> reached (c_ack c) p1) /\
+  (forall p1 p2, l = p1 ++ FAck :: p2 -> reached c p1) /\
   (c_ack c = AckReceived -> c_ackable c = true -> forall p1 p2, l = p1 ++ FTaskStart :: p2 -> In FAck p1).
 
 (* Boolean form over an observed (implementation) sequence; FSaveSkip is not observable, so for when_saved the
